@@ -49,7 +49,10 @@ COMPS = ['a', 'b', 'c', 'A', 'Inbox', 'x*', '%y', 'q"t', 'b\\s', 'n\nl', 'é',
          '中 文', 'a b', 'a&b', '~', 'inbox', 'a.b', 'x.y', '.h', 'c.',
          'cur', 'new', 'tmp', 'L' * 300, '\u0131nbox', 'maildirfolder']
 PATTERNS = ['*', '%', '%/%', 'a*', '*b', 'a/%', 'a/*', '*/c', 'INB*', 'inbox',
-            '%b%', 'a/%/c', '*x*', 'n*', '*\n*', '%l', 'q*', '*é', 'A']
+            '%b%', 'a/%/c', '*x*', 'n*', '*\n*', '%l', 'q*', '*é', 'A',
+            # a '*' followed later by a '%': the '%' must still stop at the
+            # delimiter
+            '*/%', '*%', 'a*/%', '*/%/%', '*a%']
 PTOKENS = ['*', '%', '/', 'a', 'b', 'c', 'A', '*']
 OPS = ['create', 'create', 'create', 'delete', 'rename', 'rename',
        'subscribe', 'unsubscribe', 'list', 'list', 'lsub', 'status',
